@@ -93,6 +93,13 @@ MetricsConform(e) ==
                        /\ e.metrics.offset = e.offset
                        /\ e.metrics.pwm = e.pwm )
 
+\* the driver made the curve evaluation fail (environment input "cfail"): the cycle is the code's named no-op - an error,
+\* no control-loop call, nothing written, nothing counted
+CurveFailConforms(e) ==
+  /\ avg = AvgOf(e.avgm)
+  /\ e.err /\ e.lcalls = 0 /\ e.nw = 0 /\ e.mw = <<>>
+  /\ e.offset = offset /\ e.last = last /\ e.pwm = pwm /\ e.unexpected = unexpected /\ e.raises = e.offset
+
 StepCycle(e) ==
   LET raised == e.offset > offset
       t      == IF e.err THEN last ELSE IF raised THEN e.req - 1 ELSE e.req
@@ -113,12 +120,13 @@ StepCycle(e) ==
              raised |-> raised, tp |-> e.unexpected - unexpected]
   /\ HCycleW(e.wfail \/ e.raced) /\ H4Cycle
   \* conformance: is (this state, the observed next state) a step of the specification?
-  /\ drift' = Note(/\ avg = AvgOf(e.avgm)
+  /\ drift' = Note(IF e.cfail THEN CurveFailConforms(e) ELSE
+                   /\ avg = AvgOf(e.avgm)
                    /\ MetricsConform(e)
                    /\ LoopConforms(e)
                    /\ e.nw <= 1
                    /\ e.raises = e.offset
-                   /\ CycleT(e.cv, e.lo, LoopAfter(e), t))
+                   /\ CycleEnvT(e.cv, e.lo, LoopAfter(e), t, e.wfail, e.raced))
 
 \* --- measureRpm --------------------------------------------------------------
 \* exact rational smoothing step against the logged floor(avg*1000), see Controller!AvgStep
